@@ -97,7 +97,8 @@ def main(ctx):
             jobs.append({"argv": argv, "stdin": stdin})
             evs.append({"op": "file", "mode": name, "codec": f["codec"], "fault": f["fault"], "t": f["t"], "clen": f["clen"],
                         "fmt": f["fmt"], "size": f["size"], "kind": kind, "D": f["D"], "d": f["d"], "S": S, "B": B,
-                        "nrec": f["nrec"], "errtext": f["errtext"][:80], "hung": 0, "pgz": f.get("pgz", ""), "libaccepts": f["libaccepts"]})
+                        "nrec": f["nrec"], "errtext": f["errtext"][:80], "hung": 0, "pgz": f.get("pgz", ""), "libaccepts": f["libaccepts"],
+                        "variant": f.get("variant", "")})
     res = ctx.run_many(jobs, timeout=180)
     for e, r in zip(evs, res):
         e["rc"] = r["rc"]
@@ -131,7 +132,7 @@ def main(ctx):
         # the file readers decompress .gz with klauspost/pgzip: when that library itself takes the faulted bytes
         # for a complete stream, the acceptance is the third-party module's (known finding), not the repository's
         where = "pgzip-accepts" if (e["mode"] != "obiconvert-stdin" and e.get("pgz") == "accepts") else (e.get("libaccepts") or "inside")
-        cls = "%s/%s/%s/%s/%s" % (e["mode"], e["codec"], e["fault"], e["kind"], where)
+        cls = "%s/%s/%s/%s/%s" % (e["mode"], e["codec"] + ("+" + e["variant"] if e.get("variant") else ""), e["fault"], e["kind"], where)
         ctx.violation("C17.%s.%s" % (e["mode"], r["why"]), cls,
                       "%s on %s file (%s at %d of %d bytes; codec delivers %d of %d bytes then '%s'): rc=%d, %d of %d records written"
                       % (e["mode"], e["codec"], e["fault"], e["t"], e["clen"], e["d"], e["D"], e["errtext"], e["rc"], e["nrec_out"], e["nrec"]), e)
